@@ -9,17 +9,19 @@
 extern unsigned long verif_g;   /* ghost accumulator: left fold of the reference step */
 extern unsigned long verif_i;   /* ghost index: number of bytes folded so far */
 #define VERIF_BYTE(base) (((const unsigned char *)(base))[verif_i])
-#define VERIF_HOOK_crc8_step   { verif_g = (unsigned char)table[(unsigned char)(verif_g ^ VERIF_BYTE(pdata))]; ++verif_i; }
-#define VERIF_HOOK_crc16m_step { verif_g = (unsigned short)(((unsigned short)verif_g << 8) ^ table[(((unsigned short)verif_g >> 8) ^ VERIF_BYTE(pdata)) & 0xFF]); ++verif_i; }
-#define VERIF_HOOK_crc16l_step { verif_g = (unsigned short)(((unsigned short)verif_g >> 8) ^ table[((unsigned short)verif_g ^ VERIF_BYTE(pdata)) & 0xFF]); ++verif_i; }
-#define VERIF_HOOK_crc32m_step { verif_g = (unsigned int)(((unsigned int)verif_g << 8) ^ table[(((unsigned int)verif_g >> 24) ^ VERIF_BYTE(pdata)) & 0xFF]); ++verif_i; }
-#define VERIF_HOOK_crc32l_step { verif_g = (unsigned int)(((unsigned int)verif_g >> 8) ^ table[((unsigned int)verif_g ^ VERIF_BYTE(pdata)) & 0xFF]); ++verif_i; }
-#define VERIF_HOOK_crc64m_step { verif_g = (verif_g << 8) ^ table[((verif_g >> 56) ^ VERIF_BYTE(pdata)) & 0xFF]; ++verif_i; }
-#define VERIF_HOOK_crc64l_step { verif_g = (verif_g >> 8) ^ table[(verif_g ^ VERIF_BYTE(pdata)) & 0xFF]; ++verif_i; }
-#define VERIF_HOOK_hash_bkdr_step  { verif_g = (unsigned int)((unsigned int)verif_g * 131u + VERIF_BYTE(str_)); ++verif_i; }
-#define VERIF_HOOK_hash_bkdr__step { verif_g = (unsigned int)((unsigned int)verif_g * 131u + VERIF_BYTE(ptr_)); ++verif_i; }
-#define VERIF_HOOK_hash_sdbm_step  { verif_g = (unsigned int)((unsigned int)verif_g * 65599u + VERIF_BYTE(str_)); ++verif_i; }
-#define VERIF_HOOK_hash_sdbm__step { verif_g = (unsigned int)((unsigned int)verif_g * 65599u + VERIF_BYTE(ptr_)); ++verif_i; }
+#include "contracts/crc_spec.h"
+#define VERIF_TBL(i) table[i]
+#define VERIF_HOOK_crc8_step   { verif_g = CRC8_STEP(verif_g, VERIF_BYTE(pdata), VERIF_TBL); ++verif_i; }
+#define VERIF_HOOK_crc16m_step { verif_g = CRC16M_STEP(verif_g, VERIF_BYTE(pdata), VERIF_TBL); ++verif_i; }
+#define VERIF_HOOK_crc16l_step { verif_g = CRC16L_STEP(verif_g, VERIF_BYTE(pdata), VERIF_TBL); ++verif_i; }
+#define VERIF_HOOK_crc32m_step { verif_g = CRC32M_STEP(verif_g, VERIF_BYTE(pdata), VERIF_TBL); ++verif_i; }
+#define VERIF_HOOK_crc32l_step { verif_g = CRC32L_STEP(verif_g, VERIF_BYTE(pdata), VERIF_TBL); ++verif_i; }
+#define VERIF_HOOK_crc64m_step { verif_g = CRC64M_STEP(verif_g, VERIF_BYTE(pdata), VERIF_TBL); ++verif_i; }
+#define VERIF_HOOK_crc64l_step { verif_g = CRC64L_STEP(verif_g, VERIF_BYTE(pdata), VERIF_TBL); ++verif_i; }
+#define VERIF_HOOK_hash_bkdr_step  { verif_g = BKDR_STEP(verif_g, VERIF_BYTE(str_)); ++verif_i; }
+#define VERIF_HOOK_hash_bkdr__step { verif_g = BKDR_STEP(verif_g, VERIF_BYTE(ptr_)); ++verif_i; }
+#define VERIF_HOOK_hash_sdbm_step  { verif_g = SDBM_STEP(verif_g, VERIF_BYTE(str_)); ++verif_i; }
+#define VERIF_HOOK_hash_sdbm__step { verif_g = SDBM_STEP(verif_g, VERIF_BYTE(ptr_)); ++verif_i; }
 #else
 #define VERIF_HOOK_crc8_step
 #define VERIF_HOOK_crc16m_step
@@ -32,6 +34,41 @@ extern unsigned long verif_i;   /* ghost index: number of bytes folded so far */
 #define VERIF_HOOK_hash_bkdr__step
 #define VERIF_HOOK_hash_sdbm_step
 #define VERIF_HOOK_hash_sdbm__step
+#endif
+
+/* ---- CRC table generators (C17): entry check at write time + ghost record of the witness entry ---- */
+#ifdef VERIF_TBL_HOOK
+extern unsigned verif_k;          /* ghost witness index (universally quantified) */
+extern unsigned long verif_T;     /* ghost: value written to table[verif_k] */
+extern int verif_good;            /* ghost: that value equalled the definition when it was written */
+extern unsigned long verif_poly;  /* ghost: polynomial the generator loop actually used */
+/* the definition (long division of the byte on a W-bit register), written as straight-line ghost code on a
+   hook-local of exactly the register width: top bit out, shift, conditional subtraction of the polynomial */
+#define VERIF_S1M(TOP) { verif_sig = (TOP) & verif_v; verif_v <<= 1; if (verif_sig) { verif_v ^= poly; } }
+#define VERIF_S1L { verif_sig = verif_v & 1; verif_v >>= 1; if (verif_sig) { verif_v ^= poly; } }
+#define VERIF_TBL_ENTRY_M(TY, W, TOP) { verif_poly = poly; if (c == verif_k) { TY verif_sig, verif_v = (TY)((TY)c << ((W) - 8)); \
+    VERIF_S1M(TOP) VERIF_S1M(TOP) VERIF_S1M(TOP) VERIF_S1M(TOP) VERIF_S1M(TOP) VERIF_S1M(TOP) VERIF_S1M(TOP) VERIF_S1M(TOP) \
+    verif_T = table[c]; verif_good = ((TY)value == verif_v && table[c] == (TY)value); } }
+#define VERIF_TBL_ENTRY_L(TY) { verif_poly = poly; if (c == verif_k) { TY verif_sig, verif_v = (TY)c; \
+    VERIF_S1L VERIF_S1L VERIF_S1L VERIF_S1L VERIF_S1L VERIF_S1L VERIF_S1L VERIF_S1L \
+    verif_T = table[c]; verif_good = ((TY)value == verif_v && table[c] == (TY)value); } }
+#define VERIF_HOOK_crc8m_init_entry  VERIF_TBL_ENTRY_M(unsigned char, 8, 0x80u)
+#define VERIF_HOOK_crc8l_init_entry  VERIF_TBL_ENTRY_L(unsigned char)
+#define VERIF_HOOK_crc16m_init_entry VERIF_TBL_ENTRY_M(unsigned short, 16, 0x8000u)
+#define VERIF_HOOK_crc16l_init_entry VERIF_TBL_ENTRY_L(unsigned short)
+#define VERIF_HOOK_crc32m_init_entry VERIF_TBL_ENTRY_M(unsigned int, 32, 0x80000000u)
+#define VERIF_HOOK_crc32l_init_entry VERIF_TBL_ENTRY_L(unsigned int)
+#define VERIF_HOOK_crc64m_init_entry VERIF_TBL_ENTRY_M(unsigned long, 64, 0x8000000000000000ul)
+#define VERIF_HOOK_crc64l_init_entry VERIF_TBL_ENTRY_L(unsigned long)
+#else
+#define VERIF_HOOK_crc8m_init_entry
+#define VERIF_HOOK_crc8l_init_entry
+#define VERIF_HOOK_crc16m_init_entry
+#define VERIF_HOOK_crc16l_init_entry
+#define VERIF_HOOK_crc32m_init_entry
+#define VERIF_HOOK_crc32l_init_entry
+#define VERIF_HOOK_crc64m_init_entry
+#define VERIF_HOOK_crc64l_init_entry
 #endif
 
 /* ---- Newton start value (C19): first arrival at the iteration head ---- */
